@@ -170,6 +170,8 @@ func (w *World) Scan(faults []Fault) *Line {
 		if r.panic != nil {
 			if _, ok := r.panic.(exitSentinel); ok {
 				line.Exit = true
+			} else if _, ok := r.panic.(CrashSentinel); ok {
+				line.Crash = true
 			} else {
 				line.Panic = true
 				line.PanicMsg = fmt.Sprint(r.panic)
@@ -219,7 +221,7 @@ func (w *World) Scan(faults []Fault) *Line {
 			w.Accepted[g] = w.Now
 		}
 	}
-	if line.Ret == "notingroup" || line.Exit {
+	if line.Ret == "notingroup" || line.Exit || line.Crash {
 		w.Alive = false
 	}
 	if !w.NoGauges {
